@@ -125,19 +125,21 @@ def env_of(flipped):
 
 
 def gen_cases(rng, tier):
-    out = []
-    k = 2 if tier == "quick" else 12
-    cyc = 20 if tier == "quick" else 40
-    for name, f in G.SHAPES.items():
-        for i in range(k):
-            m = f(rng)
-            out.append((m, G.gen_stimulus(rng, m, cyc), "shape:%s:%d" % (name, i)))
-    for i in range(1 if tier == "quick" else 4):
-        m, slow = G.shape_cone(rng)
-        out.append((m, G.gen_stimulus_slow(rng, m, cyc + 10, slow), "shape:cone:%d" % i))
-    for i in range(6 if tier == "quick" else 60):
-        m = G.gen_program(rng, wide=(rng.random() < 0.5))
-        out.append((m, G.gen_stimulus(rng, m, cyc), "gen:%d" % i))
+    """Programs: entries of the fixed C02 pool (corpus/C02/pool.json) on which all engines agree (so a
+    difference seen here is caused by a toggle, not by an engine bug that C02 records) — pass-shaped ones
+    first — plus the cone design (fixed seed).  The check seed selects the subset of a quick run."""
+    from . import c02
+    pool = [c for c in c02.pool_cases() if c[4] == "ok"]
+    shapes = [c for c in pool if c[2].split(":")[2].startswith("shape")]
+    others = [c for c in pool if not c[2].split(":")[2].startswith("shape")]
+    ns, no = (9, 5) if tier == "quick" else (len(shapes), 60)
+    pick = rng.sample(shapes, min(ns, len(shapes))) + rng.sample(others, min(no, len(others)))
+    out = [(m, st, "shape:%s:%s" % (tag.split(":")[2].replace("shape-", ""), tag.split(":")[1]) if "shape" in tag else "gen:" + tag.split(":")[1])
+           for (m, st, tag, _, _) in pick]
+    crng = random.Random(20260922)
+    for i in range(1 if tier == "quick" else 3):
+        m, slow = G.shape_cone(crng)
+        out.append((m, G.gen_stimulus_slow(crng, m, 24, slow), "shape:cone:%d" % i))
     return out
 
 
@@ -164,32 +166,46 @@ def run_all(binary, refbin, cases, sets, engines):
 
 
 def judge(m, one, ref):
-    """one: config name -> result.  Returns list of (key, text, detail)."""
+    """one: "set|engine" -> result.  The property's oracle is PER ENGINE: the trace must not depend on the
+    toggle set.  A difference from the reference that is the same under every toggle set of an engine is an
+    engine bug independent of the optimisations (C02's business): reported as ("uniform", ...) and only noted.
+    Returns list of (key, text, detail)."""
     bad = []
-    base = None
     outs = G.outputs_of(m)
-    for cfg in sorted(one):
-        r = one[cfg]
-        if r[0] in ("PANIC", "CRASH"):
-            bad.append(("panic", "%s crashed: %s" % (cfg, r[1][:200]), {"config": cfg}))
-            continue
-        if r[0] == "ERR":
-            bad.append(("rejected", "%s rejected the program: %s" % (cfg, r[1][:200]), {"config": cfg}))
-            continue
-        t = S.trace_payloads(r[1])
-        if base is None:
-            base = (cfg, t)
-        else:
-            d = S.first_diff(base[1], t)
+    engines = sorted(set(c.split("|")[1] for c in one))
+    rt = S.trace_payloads(ref[1]) if ref[0] == "OK" else None
+    for e in engines:
+        cfgs = sorted(c for c in one if c.split("|")[1] == e)
+        base = None
+        traces = {}
+        for cfg in cfgs:
+            r = one[cfg]
+            if r[0] in ("PANIC", "CRASH"):
+                bad.append(("panic", "%s crashed: %s" % (cfg, r[1][:200]), {"config": cfg}))
+                continue
+            if r[0] == "ERR":
+                bad.append(("rejected", "%s rejected the program: %s" % (cfg, r[1][:200]), {"config": cfg}))
+                continue
+            traces[cfg] = S.trace_payloads(r[1])
+        ref_cfg = "all_on|" + e if ("all_on|" + e) in traces else (sorted(traces)[0] if traces else None)
+        differ = False
+        for cfg, t in sorted(traces.items()):
+            if cfg == ref_cfg:
+                continue
+            d = S.first_diff(traces[ref_cfg], t)
             if d is not None:
-                bad.append(("toggles-differ", "toggle sets %s and %s differ at cycle %d output %s: %x vs %x" % (
-                    base[0], cfg, d[0], m["decls"][outs[d[1]]][0], base[1][d[0]][d[1]], t[d[0]][d[1]]),
-                    {"configs": [base[0], cfg], "cycle": d[0], "output": d[1]}))
-        if ref[0] == "OK":
-            d = S.first_diff(S.trace_payloads(ref[1]), t)
-            if d is not None:
-                bad.append(("ref-differs", "reference and %s differ at cycle %d output %s" % (cfg, d[0], m["decls"][outs[d[1]]][0]),
-                            {"config": cfg, "cycle": d[0], "output": d[1]}))
+                differ = True
+                bad.append(("toggles-differ", "engine %s: toggle sets %s and %s differ at cycle %d output %s: %x vs %x" % (
+                    e, ref_cfg.split("|")[0], cfg.split("|")[0], d[0], m["decls"][outs[d[1]]][0],
+                    traces[ref_cfg][d[0]][d[1]], t[d[0]][d[1]]), {"configs": [ref_cfg, cfg], "cycle": d[0], "output": d[1]}))
+        if rt is not None and traces:
+            nd = [cfg for cfg, t in traces.items() if S.first_diff(rt, t) is not None]
+            if nd and not differ:
+                bad.append(("uniform", "engine %s differs from the reference under every toggle set (not optimisation related)" % e,
+                            {"config": nd[0]}))
+            elif nd:
+                bad.append(("ref-differs", "reference and %s differ (%d of %d toggle sets of engine %s)" % (nd[0], len(nd), len(traces), e),
+                            {"config": nd[0], "configs": nd[:6]}))
     return bad
 
 
@@ -224,7 +240,8 @@ def run(tier, seed, replay):
         one = {c: r[c][0] for c in r}
         for k, w, d in judge(m, one, ref[0]):
             print("replay:", k, w)
-            res.violation(k, w, {"module": G.module_to_json(m), "stim": G.stim_to_json(stim)})
+            if k != "uniform":
+                res.violation(k, w, {"module": G.module_to_json(m), "stim": G.stim_to_json(stim)})
         return res.finish()
 
     rng = random.Random(seed * 1000003 + 3)
@@ -246,11 +263,14 @@ def run(tier, seed, replay):
             res.hist("construct_histogram", k, v)
         distinct.add(G.wire_ref(m, stim, "2"))
         for k, w, d in judge(m, one, ref[i]):
+            if k == "uniform":
+                res.hist("engine_differs_from_reference_under_all_toggle_sets(see_C02)", tag)
+                continue
             failures.append((i, k, w, d))
         if len(res.coverage["samples"]) < 2:
             res.sample({"shape": tag, "veryl_head": G.to_veryl(m)[:1200], "cycles": len(stim)})
     ncfg = len(sets) * len(ENGINES)
-    res.coverage["evaluations"] = accepted * ncfg * (len(cases[0][1]) if cases else 0)
+    res.coverage["evaluations"] = sum(len(c[1]) for c in cases) * ncfg
     res.coverage["programs"] = accepted
     res.coverage["toggle_sets"] = [{"name": n, "flipped": sorted(f)} for n, f in sets]
     res.coverage["engines"] = ENGINES
@@ -260,8 +280,10 @@ def run(tier, seed, replay):
                             "many small statements, a child module of >=320 comb statements on rarely changing inputs) + random µRTL "
                             "programs; each under %d toggle sets x %d engines; distinct by serialised (program, stimulus)" % (len(sets), len(ENGINES)))
     res.obligation("enough generated programs are accepted by the analyzer (%d of %d)" % (accepted, len(cases)), accepted * 10 >= len(cases) * 7)
-    corr = [f for f in failures if f[1] == "ref-differs"]
     orac = [f for f in failures if f[1] != "ref-differs"]
+    # a toggle set that differs from the others also differs from the reference: report it once, as the oracle failure
+    with_orac = set(f[0] for f in orac)
+    corr = [f for f in failures if f[1] == "ref-differs" and f[0] not in with_orac]
     res.coverage["correspondence_mismatches"] = len(corr)
     res.coverage["oracle_failures"] = len(orac)
     res.obligation("oracle: traces identical under all %d toggle sets x engines on %d programs" % (ncfg, accepted), not orac)
@@ -269,13 +291,11 @@ def run(tier, seed, replay):
 
     reported = set()
     for i, k, w, d in orac + corr:
-        if k in reported:
-            continue
-        reported.add(k)
-        if k in res.known:
-            res.violation(k, w, {})
-            continue
         m, stim, tag = cases[i]
+        rk = (k, (d.get("configs") or ["", d.get("config", "")])[1])
+        if rk in reported or len(reported) >= 6:
+            continue
+        reported.add(rk)
         # name the responsible toggle(s): which single flips reproduce the difference against all_on
         blame = []
         if k == "toggles-differ":
@@ -291,35 +311,53 @@ def run(tier, seed, replay):
                         blame.append(n)
             except Exception:
                 pass
+            # identity of the failure class: engine + the single toggles that reproduce it
+            ck = "toggles-differ:%s:%s" % (d["configs"][1].split("|")[1], "+".join(sorted(blame)) or d["configs"][1].split("|")[0])
+            if ck in res.known:
+                res.violation(ck, w, {})
+                continue
+            k_report = ck
+        else:
+            k_report = k
+        if k_report in res.known:
+            res.violation(k_report, w, {})
+            continue
 
-        def pred(m2, st2, k=k, d=d):
+        def pred_batch(cands, k=k, d=d):
             cfgs = d.get("configs") or [d.get("config")]
             want = set(c for c in cfgs if c)
             ss = [(n, f) for n, f in sets if any(c.split("|")[0] == n for c in want)] or sets[:2]
+            if not any(n == "all_on" for n, _ in ss):
+                ss = [("all_on", frozenset())] + ss
             engs = sorted(set(c.split("|")[1] for c in want)) or ENGINES
-            if m.get("children"):
-                return False
             try:
-                rr, rf = run_all(binary, refbin, [(m2, st2, "shrink")], ss, engs)
+                rr, rf = run_all(binary, refbin, [(a, b, "shrink") for a, b in cands], ss, engs)
             except Exception:
-                return False
-            one2 = {c: rr[c][0] for c in rr}
-            if any(v[0] == "ERR" for v in one2.values()) and k != "rejected":
-                return False
-            return any(k2 == k for k2, _, _ in judge(m2, one2, rf[0]))
-        m2, st2 = m, stim
-        if not m.get("children"):
-            try:
-                m2, st2 = S.shrink(m, stim, pred, budget=40 if tier == "quick" else 150)
-            except Exception:
-                m2, st2 = m, stim
+                return [False] * len(cands)
+            out = []
+            for ci, (a, b) in enumerate(cands):
+                one2 = {c: rr[c][ci] for c in rr}
+                if any(v[0] == "ERR" for v in one2.values()) and k != "rejected":
+                    out.append(False)
+                    continue
+                out.append(any(k2 == k for k2, _, _ in judge(a, one2, rf[ci])))
+            return out
+        m2, st2 = dict(m), stim
+        m2.pop("children", None)        # the hierarchy is only a way of printing; shrink the flat program
+        try:
+            if pred_batch([(m2, stim)])[0]:
+                m2, st2 = S.shrink_batch(m2, stim, pred_batch, rounds=6 if tier == "quick" else 16)
+            else:
+                m2 = m
+        except Exception:
+            m2, st2 = m, stim
         rep = {"module": G.module_to_json(m2), "children": m2.get("children"), "stim": G.stim_to_json(st2),
                "veryl": G.to_veryl(m2)[:20000], "origin": tag, "detail": d, "responsible_toggles": blame}
         if k == "ref-differs":
             res.violation(k, w + " — all toggle sets agree with each other; reference and simulator differ",
                           dict(rep, no_longer_checks="correspondence reference = simulator"), no_input=True)
         else:
-            res.violation(k, w + ("; single toggles reproducing it: %s" % blame if blame else ""), rep)
+            res.violation(k_report, w + ("; single toggles reproducing it: %s" % blame if blame else ""), rep)
     if not proved and not res.violations:
         pf = getattr(res, "proof_failure", {})
         res.violation("proof", "Props/C03.v is no longer established: %s" % pf.get("where", "audit"),
